@@ -10,7 +10,7 @@ import (
 // Inputs around size thresholds: 200+ tokens, nesting 30+ deep, 17+ arguments, very long operands and blank runs.
 
 func smallAtom(r *hx.Rng) string {
-	return hx.Pick(r, []string{"0", "1", "2", "3", "7", "0.5", "2.5", "10", "$x", "$y", "$h", "$n", "$neg", "$e", "1e-2", "100", "$a1e", "$r2e"})
+	return hx.Pick(r, []string{"0", "1", "2", "3", "7", "0.5", "2.5", "10", "$x", "$y", "$h", "$n", "$neg", "$e", "1e-2", "100", "$a1e", "$r2e", "1e+2", "2.5E-1", "$A1E"})
 }
 
 func bigExpr(r *hx.Rng) string {
